@@ -37,6 +37,8 @@ ASSUMPTIONS = [
     "handler results for one session must agree on every single-valued field and on the port set",
     "the order of BgpConfig.peers and of recorded interface operations is not significant (compared as multisets), "
     "like the element order of concatenated tuples",
+    "DirectPeer.all_connected_ports of a peer is the set of that peer's own port names over all links of the pair "
+    "(docs: 'all interconnections'); handler tables with 'acp' derive the subnet from it",
     "handler tables put families, vrf, bfd on the session object only (the property does not say which side's "
     "per-peer families/vrf a peer shows); addresses, asnum, mtu, lag/subif/svi/ifname are per side",
     "a filter expression that cannot be evaluated (int compared with str ...) does not match",
@@ -233,7 +235,8 @@ def _single_filter(name):
 def make_pair_handler(kind, table):
     def handler(left, right, session):
         pairs = sorted(zip(left.ports, right.ports)) if kind == "direct" else None
-        lf, rf, sf = ref.eval_pair_handler(kind, table, dict(vars(left.match)), dict(vars(right.match)), pairs)
+        acp = (frozenset(left.all_connected_ports), frozenset(right.all_connected_ports)) if kind == "direct" else None
+        lf, rf, sf = ref.eval_pair_handler(kind, table, dict(vars(left.match)), dict(vars(right.match)), pairs, acp)
         for obj, fields in ((left, lf), (right, rf), (session, sf)):
             for k, v in fields.items():
                 setattr(obj, k, _conv(v))
@@ -703,9 +706,15 @@ I_IFS = ["none", "lo", "losub", "svi", "Llo", "Rsvi", "nolo", "svisub"]
 S_MATCHERS = {"M0": ("tor-{n}", ""), "M1": (GEN, "m1"), "M2": ("spine-{n}", "mlt2"), "M3": (GEN, "")}
 
 
-def rule_direct(m, pp, sel, plan, attrs):
+ACP_MODES = ["lmin", "rmin", "lname", "rname"]       # handler reads left/right .all_connected_ports
+
+
+def rule_direct(m, pp, sel, plan, attrs, acp=""):
     l, r, f = D_MATCHERS[m]
-    return {"k": "direct", "l": l, "r": r, "f": f, "pp": pp, "h": dict(attrs, plan=plan, **{"if": sel})}
+    h = dict(attrs, plan=plan, **{"if": sel})
+    if acp:
+        h["acp"] = acp
+    return {"k": "direct", "l": l, "r": r, "f": f, "pp": pp, "h": h}
 
 
 def rule_indirect(m, sel, plan, attrs):
@@ -723,8 +732,16 @@ def rule_device(m, h):
     return {"k": "device", "l": l, "f": f, "h": h}
 
 
-def topo(devs, *links):
-    return {"devices": list(devs), "links": [list(x) for x in links]}
+def topo(devs, *links, base=None):
+    t = {"devices": list(devs), "links": [list(x) for x in links]}
+    if base:
+        t["base"] = dict(base)
+    return t
+
+
+def offsets(devs, step=2, first=0):
+    """port numbering bases so that the two ends of every link use different port names"""
+    return {d: first + step * i for i, d in enumerate(devs) if first + step * i}
 
 
 def _uniq(seq):
@@ -747,41 +764,47 @@ def topologies(tier):
     t = {}
     two = []
     for a, b in ((S1, T1), (S1, T2), (S2, T1), (S1, S2)):
-        for k, x in ((1, 0), (2, 0), (2, 1), (3, 1)) + (((3, 0),) if tier == "thorough" else ()):
-            two.append(topo([a, b], [a, b, k, x]))
+        # port numbering: same names on both ends / second end shifted by one (overlapping names) / disjoint names /
+        # the first end carries the higher numbers
+        for k, x, base in ((1, 0, None), (2, 0, {b: 1}), (2, 1, {b: 3}), (3, 1, {a: 2})) + (
+                ((3, 0, None),) if tier == "thorough" else ()):
+            two.append(topo([a, b], [a, b, k, x], base=base))
     two.append(topo([T1, T2], [T1, T2, 1, 0]))
-    two.append(topo([T1, S1], [T1, S1, 2, 1]))           # the tor listed (and cabled) first
+    two.append(topo([T1, S1], [T1, S1, 2, 1], base={S1: 1}))   # the tor listed (and cabled) first
     two.append(topo([S1, T1]))                           # not linked
     three = [
-        topo([S1, T1, T2], [S1, T1, 2, 1], [S1, T2, 1, 0]),
-        topo([S1, S2, T1], [S1, T1, 1, 0], [S2, T1, 2, 0], [S1, S2, 1, 0]),
+        topo([S1, T1, T2], [S1, T1, 2, 1], [S1, T2, 1, 0], base=offsets([S1, T1, T2])),
+        topo([S1, S2, T1], [S1, T1, 1, 0], [S2, T1, 2, 0], [S1, S2, 1, 0], base=offsets([S1, S2, T1])),
     ]
     four = [
         topo([S1, S2, T1, T2], [S1, T1, 1, 0], [S1, T2, 1, 0], [S2, T1, 1, 0], [S2, T2, 1, 0]),
-        topo([S1, S2, T1, T2], [S1, T1, 2, 1], [S2, T2, 3, 1], [T1, T2, 1, 0], [S1, S2, 1, 0], [S2, T1, 1, 0]),
+        topo([S1, S2, T1, T2], [S1, T1, 2, 1], [S2, T2, 3, 1], [T1, T2, 1, 0], [S1, S2, 1, 0], [S2, T1, 1, 0],
+             base=offsets([S1, S2, T1, T2], step=1)),
     ]
     t["d_single"] = two + three + four
-    t["d_pair"] = [topo([S1, T1], [S1, T1, 1, 0]), topo([S1, T1], [S1, T1, 2, 1]), topo([S1, T2], [S1, T2, 1, 0]), three[0]]
-    t["d_triple"] = [topo([S1, T1], [S1, T1, 1, 0]), topo([S1, T2], [S1, T2, 2, 1])]
+    t["d_pair"] = [topo([S1, T1], [S1, T1, 1, 0]), topo([S1, T1], [S1, T1, 2, 1], base={T1: 1}),
+                   topo([S1, T2], [S1, T2, 1, 0]), three[0]]
+    t["d_triple"] = [topo([S1, T1], [S1, T1, 1, 0]), topo([S1, T2], [S1, T2, 2, 1], base={T2: 2})]
     sets2 = [[S1, T1], [S1, T2], [S2, T1], [S1, S2], [T1, T2], [T2, S1]]
     t["i_single"] = [topo(s) for s in sets2] + [topo([S1, T1, T2]), topo([S1, S2, T1], [S1, T1, 1, 0]),
                                                 topo([S1, S2, T1, T2], [S1, T1, 1, 0], [S2, T2, 2, 0])]
     t["i_pair"] = [topo([S1, T1]), topo([S1, T2]), topo([S1, S2, T1])]
     t["s_single"] = [topo([S1, T1]), topo([T2, S2, T1], [T2, S2, 1, 0])]
-    t["mixed"] = [topo([S1, T1], [S1, T1, 2, 1]), four[0]]
+    t["mixed"] = [topo([S1, T1], [S1, T1, 2, 1], base={T1: 1}), four[0]]
     if tier == "thorough":
         five = [S1, S2, T1, T2, T3]
         t["d_single"] += [
             topo(five, *[[s, tt, 1, 0] for s in (S1, S2) for tt in (T1, T2, T3)]),
-            topo(five, [S1, T1, 3, 1], [S1, T2, 2, 0], [S1, T3, 1, 0], [S2, T3, 2, 1], [S1, S2, 2, 1], [T1, T2, 1, 0]),
+            topo(five, [S1, T1, 3, 1], [S1, T2, 2, 0], [S1, T3, 1, 0], [S2, T3, 2, 1], [S1, S2, 2, 1], [T1, T2, 1, 0],
+                 base=offsets(five, step=1)),
         ]
         # every link pattern 0..3 on a spine with two tors, and on the 2x2 fabric with 0..2
         for k1, k2, k3 in itertools.product(range(4), repeat=3):
             links = [[a, b, k, 1] for (a, b), k in zip(((S1, T1), (S1, T2), (T1, T2)), (k1, k2, k3)) if k]
-            t.setdefault("d_grid", []).append(topo([S1, T1, T2], *links))
+            t.setdefault("d_grid", []).append(topo([S1, T1, T2], *links, base=offsets([S1, T1, T2], step=1)))
         for ks in itertools.product(range(3), repeat=4):
             links = [[a, b, k, 1] for (a, b), k in zip(((S1, T1), (S1, T2), (S2, T1), (S2, T2)), ks) if k]
-            t["d_grid"].append(topo([S1, S2, T1, T2], *links))
+            t["d_grid"].append(topo([S1, S2, T1, T2], *links, base=offsets([S1, S2, T1, T2], step=1)))
         t["i_single"] += [topo(five)]
         t["mixed"] += [topo(five, *[[s, tt, 1, 0] for s in (S1, S2) for tt in (T1, T2, T3)])]
     return t
@@ -810,6 +833,8 @@ def _families(tier):
     d1 = [rule_direct(m, pp, sel, 0, A["A0"]) for m in D_MATCHERS for pp in "us" for sel in D_IFS]
     d1 += [rule_direct(m, "u", sel, plan, A[a]) for m in ("D0", "D1", "D4") for sel in ("port", "lag")
            for plan in (0, 1) for a in A]
+    d1 += [rule_direct(m, pp, sel, 0, A["A0"], acp) for m in ("D0", "D1", "D4") for pp in "us" for sel in ("port", "lag")
+           for acp in ACP_MODES]
     fam.append(("direct-1", T["d_single"], [[r] for r in _uniq(d1)]))
     if th:
         d1a = [rule_direct(m, pp, sel, plan, a) for m in ("D0", "D4") for pp in "us" for sel in ("port", "lag", "Rsvi")
@@ -818,11 +843,15 @@ def _families(tier):
     if th:
         grid_rules = [rule_direct(m, pp, sel, 0, A[a]) for m in ("D0", "D1", "D4", "D6") for pp in "us"
                       for sel in ("port", "lag", "svi", "subif") for a in ("A0", "A1")]
+        grid_rules += [rule_direct(m, pp, sel, 0, A["A0"], acp) for m in ("D0", "D1", "D4") for pp in "us"
+                       for sel in ("port", "lag") for acp in ACP_MODES]
         fam.append(("direct-1-grid", T["d_grid"], [[r] for r in _uniq(grid_rules)]))
     # ---- direct, two rules: first from a base alphabet, second from an overlay alphabet
     if th:
         base = [rule_direct(m, pp, sel, plan, A[a]) for m in ("D0", "D1", "D4") for pp in "us"
                 for sel in ("port", "lag", "svi", "Llag", "lagsub") for plan in (0, 1) for a in ("A0", "A1", "A2", "A3", "A4")]
+        base += [rule_direct(m, pp, "port", 0, A[a], acp) for m in ("D0", "D1") for pp in "us" for a in ("A0", "A1")
+                 for acp in ACP_MODES]
         over = [rule_direct(m, pp, sel, 0, A[a]) for m in ("D0", "D1") for pp in "us" for sel in ("port", "lag", "svi")
                 for a in ("A0", "A1", "A2", "A4")]
         over += [rule_direct(m, "u", sel, 2, A["A0"]) for m in ("D0", "D1") for sel in ("port", "lag", "svi")]
@@ -831,6 +860,7 @@ def _families(tier):
         base = [rule_direct(m, pp, sel, 0, A["A0"]) for m in ("D0", "D1", "D4") for pp in "us" for sel in ("port", "lag", "svi")]
         base += [rule_direct("D0", "u", "lag", 0, A[a]) for a in ("A1", "A2", "A3", "A4", "A5", "A7")]
         base += [rule_direct("D0", "u", "lag", 1, A["A0"]), rule_direct("D1", "s", "Llag", 0, A["A1"])]
+        base += [rule_direct("D1", "s", "port", 0, A["A0"], "lmin"), rule_direct("D0", "s", "port", 0, A["A0"], "rname")]
         over = [rule_direct(m, "u", sel, 0, A[a]) for m in ("D0", "D1") for sel in ("port", "lag", "svi")
                 for a in ("A0", "A1", "A2", "A4")]
         over += [rule_direct("D0", "s", "lag", 0, A["A0"]), rule_direct("D1", "s", "port", 0, A["A1"]),
@@ -840,7 +870,8 @@ def _families(tier):
     d3 = [rule_direct("D0", "u", "lag", 0, A["A0"]), rule_direct("D1", "u", "lag", 0, A["A1"]),
           rule_direct("D4", "u", "lag", 0, A["A2"]), rule_direct("D0", "u", "svi", 0, A["A4"]),
           rule_direct("D0", "s", "port", 0, A["A0"]), rule_direct("D1", "u", "lag", 1, A["A3"]),
-          rule_direct("D0", "u", "port", 0, {"as": "side", "fam": "6"}), rule_direct("D1", "u", "Llag", 0, {"as": "s0", "fam": "6", "bfd": "1"})]
+          rule_direct("D0", "u", "port", 0, {"as": "side", "fam": "6"}), rule_direct("D1", "u", "Llag", 0, {"as": "s0", "fam": "6", "bfd": "1"}),
+          rule_direct("D1", "s", "port", 0, A["A0"], "rmin")]
     if th:
         d3 += [rule_direct(m, pp, sel, 0, A[a]) for m in ("D0", "D1", "D4") for pp in "us" for sel in ("port", "lag")
                for a in ("A0", "A5")]
@@ -931,14 +962,14 @@ def _bound_text(tier):
             + ("; cross-field triples" if tier == "thorough" else "; cross-field pairs"))
 
 
-BLOCK_CASES = {"quick": 220, "thorough": 1500}      # (topology, registry) cases per block, approximately
+BLOCK_EXECS = {"quick": 1500, "thorough": 12000}      # execute_for calls per block, approximately
 
 
 def blocks(tier, seed):
     bl = []
     for name, topos, regs in families(tier):
-        n = len(topos) * len(regs)
-        of = max(1, min(96, -(-n // BLOCK_CASES[tier])))
+        execs = sum(len(t["devices"]) for t in topos) * sum({1: 2, 2: 4, 3: 9}[len(r)] for r in regs)
+        of = max(1, min(96, -(-execs // BLOCK_EXECS[tier])))
         bl += [{"part": "A", "tier": tier, "fam": name, "i": i, "of": of} for i in range(of)]
     if tier == "quick":
         # one seed-selected slice of the thorough space on top of the quick core
